@@ -12,931 +12,771 @@ Definition show_fres (r : fres) : string :=
   end.
 Definition check (rs : list rune) : string := digest (show_fres (format_res rs)).
 Definition full (rs : list rune) : string := show_fres (format_res rs).
-Eval vm_compute in ("<<<M1921>>>" ++ check (runes_of_ascii "  root	packet u
-	{  match
-	crc
-
-    as  leftPad
-	{ [
-    00	]  :	//
-
-	o ,
-    42
-    /// triple
-:
-
-    // trailing space 
-      //x
-
-crc
-	[
-	""a	b""
-, ""CRC32""
-,
-
-    ""a\""b""  ,  ""\n""
-,
-
-0,
-255]
-    : // packet A { u8 x, }
-    zchar
-
-    , 
-// " ++ [128512]%N ++ runes_of_ascii " emoji
-  //
-
-}	//	t
-	,
-	string
-    stringy
-
-@lengthOf(matchKey	) , int ,  @tag(  1 )	repeat  zchar[
-    4294967296
-
-] roots
-	,
-	@leftPad ( 
-'\x00')
-x
-
-//x
-    @lengthOf(
-
-crc )  , }	packet  // c
-    	repeatCount {
-
-    zchar[
-
-255	]
-
-    f32a
-	@calculatedFrom(""x y""  )
-    ,
-    @tag(
-	255)	char[] asx 
-@calculatedFrom( 
-""" ++ [28040; 24687]%N ++ runes_of_ascii """ 
-
-// " ++ [27880; 37322]%N ++ runes_of_ascii "
-    ) ,leftPad { 
-
-    /// triple
-    	// a // b
-repeat int u8x  ,
-i64  trueish
-
-    @lengthOf(
-	i8i8	)
-`" ++ [28040; 24687; 31867; 22411]%N ++ runes_of_ascii "` 
-	    // a // b
-, repeat int64//	t
-    	pack ,
-}
-, match
-    float
-	as o
-
-    { //
-	  65535
-    :  Pad ,
-	[
-
-""" ++ [128512]%N ++ runes_of_ascii """ ,
-""" ++ [28040; 24687]%N ++ runes_of_ascii """,
-
-0123456789] 
-	//x
-  // @lengthOf(
-: i8i8 
-, 7:
-asx
-    00 :stringy} 
-,
-@calculatedFrom(
-
-""" ++ [233]%N ++ runes_of_ascii "t" ++ [233]%N ++ runes_of_ascii """
-) f32a
-// packet A { u8 x, }
-	// trailing space 
-
-	u
-    ,
-	repeat
-msg_type
-`" ++ [233]%N ++ runes_of_ascii "` ,
-
-    repeat
-zchar[ 
-42
-]crc
-
-,uint64 
-    // " ++ [27880; 37322]%N ++ runes_of_ascii "
-  lengthOf	,
-
-    repeat As
-    `` ,zchar[ 007
-    ]
-
-    tag  `tab	here` 
-,
-
-}
-root
-packet  charz  {	string
-msg_type
-,
-@calculatedFrom(
-    """"
-)repeat//	t
-	string tag	`tab	here` ,
-
-repeat calculatedFrom ,
-    repeat
-    Foo
-,
-uint64 Foo
-
-    @lengthOf( packetx
-
-    ),
-@rightPad (
-    ) match
-	falsey
-as
-
-calculatedFrom
-    { [0 , 10
-,
-
-    ""a\""b""
-    ] :	metadata , }
-    ,
-    @calculatedFrom(  ""\" ++ [233]%N ++ runes_of_ascii """) i64
-
-    As	`` ,
-    @lengthOf(	rootA
-
-    )
-u32
-
-Logon  // c
-    @lengthOf(
-a1
-)	, @calculatedFrom(""""  )
-
-@leftPad 
-(	' ' )	uint16
-
-    i8i8 
-@calculatedFrom(""// no comment""
-), 
-}root
-	packet // trailing space 
-		uint8x 
-{repeat f32
-chars`tab	here`
-
-    , }  MetaData
-calculatedFrom { 
-      //
-// `tick` ""quote"" 'q'
-    metadata
-crc	, 
-}
-")).
-Eval vm_compute in ("<<<M385>>>" ++ check (runes_of_ascii "options {
-    StringPrefixLenType = u16;
-    ArrayPrefixLenType = u16;
-}
-
-packet SampleBinary {
-    uint16 MsgType `" ++ [28040; 24687; 31867; 22411]%N ++ runes_of_ascii "`,
-    u16 BodyLenght @lengthOf(Body) `" ++ [28040; 24687; 20307; 38271; 24230]%N ++ runes_of_ascii "`,
-    match MsgType as Body {
-        1 : Logon,
-        2 : Logout,
-        3 : Heartbeat,
-        4 : RiskControlRequest,
-        5 : RiskControlResponse,
-    },
-    @calculatedFrom(""CRC32"")
-    u32 Ckecksum `" ++ [26657; 39564; 21644]%N ++ runes_of_ascii "`,
-}
-
-packet Logon {
-    @leftPad('0')
-    char[10] UserName `" ++ [29992; 25143; 21517]%N ++ runes_of_ascii "`,
-    string Password `" ++ [23494; 30721]%N ++ runes_of_ascii "`,
-    uint64 ClientId `" ++ [23458; 25143; 31471]%N ++ runes_of_ascii "ID`,
-    u16 HeartbeatInterval `" ++ [24515; 36339; 38388; 38548]%N ++ runes_of_ascii "`,
-}
-
-packet Logout {
-    @rightPad('0')
-    char[10] UserName `" ++ [29992; 25143; 21517]%N ++ runes_of_ascii "`,
-    uint64 ClientId `" ++ [23458; 25143; 31471]%N ++ runes_of_ascii "ID`,
-}
-
-packet Heartbeat {
-}
-
-packet RiskControlRequest {
-    string UniqueOrderId `" ++ [21807; 19968; 35746; 21333; 21495]%N ++ runes_of_ascii "`,
-    char[16] ClOrdID `" ++ [23458; 25143; 35746; 21333; 21495]%N ++ runes_of_ascii "`,
-    char[3] MarketID `" ++ [24066; 22330]%N ++ runes_of_ascii "id`,
-    char[12] SecurityID `" ++ [35777; 21048; 20195; 30721]%N ++ runes_of_ascii "`,
-    char Side `" ++ [20080; 21334; 26041; 21521]%N ++ runes_of_ascii "`,
-    char OrderType `" ++ [35746; 21333; 31867; 22411]%N ++ runes_of_ascii "`,
-    u64 Price `" ++ [20215; 26684]%N ++ runes_of_ascii "`,
-    u32 Qty `" ++ [25968; 37327]%N ++ runes_of_ascii "`,
-    repeat string ExtraInfo `" ++ [38468; 21152; 20449; 24687]%N ++ runes_of_ascii "`,
-    repeat SubOrder {
-        char[16] ClOrdID `" ++ [23376; 35746; 21333; 21495]%N ++ runes_of_ascii "`,
-        u64 Price `" ++ [23376; 35746; 21333; 20215; 26684]%N ++ runes_of_ascii "`,
-        u32 Qty `" ++ [23376; 35746; 21333; 25968; 37327]%N ++ runes_of_ascii "`,
-    },
-}
-
-packet RiskControlResponse {
-    string UniqueOrderId `" ++ [21807; 19968; 35746; 21333; 21495]%N ++ runes_of_ascii "`,
-    i32 Status `" ++ [29366; 24577]%N ++ runes_of_ascii "`,
-    string Msg `" ++ [32467; 26524; 20449; 24687]%N ++ runes_of_ascii "`,
-    repeat Detail,
-}
-
-packet Detail {
-    string RuleName `" ++ [35268; 21017; 21517; 31216]%N ++ runes_of_ascii "`,
-    u16 Code `" ++ [21407; 22240; 20195; 30721]%N ++ runes_of_ascii "`,
-}")).
-Eval vm_compute in ("<<<M1699>>>" ++ check (runes_of_ascii "// a // b
-packet stringy {
-    string zchar,
-    repeat T,
-    match u as charz {
-        007 : float,
-        ""\" ++ [233]%N ++ runes_of_ascii """ : Logon,
-        ""a	b"" : pack,
-    },
-    match uint8x as roots {
-        1 : len,
-    },
-}
-
-packet zchar {
-    roots options1 `// not a comment`,
-    int64 As,
-    i16 float @lengthOf(falsey) `a\`,
-    int64 msg_type `tab	here`,
-    @tag(0)
-    repeat uint8x,
-    @lengthOf(x)
+Eval vm_compute in ("<<<M1959>>>" ++ check (runes_of_ascii "packet falsey {
+    char[7] Foo @calculatedFrom(""CRC32""),
+    @tag(10)
+    u8 Packet `" ++ [233]%N ++ runes_of_ascii "`,
+    repeat stringy,
+    @lengthOf(float)
+    tag {
+        repeat u8x {
+            int16 charz @lengthOf(trueish),//	t
+            repeat string calculatedFrom,
+            charz @calculatedFrom(""a\""b"") `line1
+            line2`,
+        },
+        u64 MetaDataX @calculatedFrom(""" ++ [128512]%N ++ runes_of_ascii """) `" ++ [233]%N ++ runes_of_ascii "`,
+        rootA {
+            repeat u64 BodyLength `" ++ [233]%N ++ runes_of_ascii "`,
+            pack @calculatedFrom(""{,}"") `" ++ [28040; 24687; 31867; 22411]%N ++ runes_of_ascii "`,
+            repeat x charz,
+        },
+        // a // b
+        char[] packetx,
+    },// `tick` ""quote"" 'q'
+    calculatedFrom,
+    u x_y_z,
+    repeat int i64_,
+    @leftPad(' ')
+    u32 T @calculatedFrom(""{,}""),
     repeat metadata,
-    zchar[0] int,
-    uint64 zchar,
-    zchar[7] msg_type,
-    @calculatedFrom(""" ++ [28040; 24687]%N ++ runes_of_ascii """)
-    crc,
 }
 
-root packet zchar {
-    repeat leftPad,
-}
-
-packet A {
-    @lengthOf(string_)
-    x @lengthOf(options1) `two words`,
-    string len,
-}
-
-packet falsey {
-    i64_ @calculatedFrom(""{,}""),
-    repeat string chars,
-    zchar[7] calculatedFrom,
-    Header {
-        char u `two words`,
-        repeat char[] tag `say ""hi""`,
-        Z9_ @lengthOf(T) `line1
-        line2`,
+root packet chars {
+    char[65535] pack @lengthOf(As) `tab	here`,
+    char[255] msg_type `// not a comment`,
+    @calculatedFrom(""// no comment"")
+    @tag(0)
+    @tag(10)
+    repeat Header {
+        char[] i64_,
+        repeat T ``,
+        match uint8x as i64_ {
+            00 : _x,
+            65535 : Z9_,
+            ""1"" : u8x,
+            007 : Z9_,
+            255 : matchKey,
+            ""1"" : crc,
+        },
     },
-    msg_type @calculatedFrom(""// no comment""),
-    @rightPad('\x00')
-    @lengthOf(asx)
-    falsey,
-}// packet A { u8 x, }")).
-Eval vm_compute in ("<<<M1331>>>" ++ check (runes_of_ascii "  options { 
-FixedStringPadFromLeft 
-=	true;
-
-FixedStringPadChar =
-    '0' ;
-} packet
-Leg{	InPrice0 { 
-repeat string clOrdID ,
-
-    int16 msgKind
-, 
-zchar[
-
-    5  ]	Px
-
-    ,
-} 
-,
-i16  f1 ,
-repeat 
-f64 Side2
-
-    , string 
-Acct	,
-} 
-packet Cancel { zchar[ 4
-
-    ]clOrdID ,	string
-	seqNo  ,
-
-    Leg,	@leftPad
-    ('0' ) char[ 11  ] OrderId 
-,	}
-    packet Quote  {
-    repeat
-	char[
-
-4]
-	sym 
-,
-
-    f64
-	OrderId  ,
-    repeat
-Leg ,repeat
-i64 f1 , int16 Note ,  zchar[3
-	]
-	count ,
-	}root	packet Ack
-{ @leftPad	(
-' ')	char[
-
-    10 ] 
-sym
-	, InPx60	{Cancel
-
-,
-
-repeat
-char[  1
-]
-
-    f1 , string Tail,
-    repeat
-
-InNote55
-    {  int8
-	count, f64	f1,repeat  Cancel
-    ,
-} ,	char[] 
-tag7
-
-,	repeat
-
-    string
-msgKind ,
+    @calculatedFrom(""packet"")
+    match int as x_y_z {
+        0123456789 : Logon,
+        //	t
+        [0123456789, ""it's""] : int,
+        [""a	b"", ""CRC32"", 0, 4294967296, """"] : pack,
+        0 : u,
+    },
+    match string_ as int {
+        0 : repeatCount,
+        [""abc""] : float,
+        007 : msg_type,
+        [""a\""b""] : charz,
+    },
+    i16 MetaDataX `say ""hi""`,
+    repeat u `tab	here`,
+    repeat falsey {
+        repeat i8 lengthOf `a\`,
+        repeatCount @lengthOf(o) `{ , }`,
+    },
 }
-, u8
-lastPx
-	,
-match 
-lastPx as Body
-{
-152
 
-:	Quote ,173 : Cancel ,
-
-4
-	:
-Leg
-, }
-
-    ,	u16 Ref
-@calculatedFrom( ""CRC32"")	, } ")).
-Eval vm_compute in ("<<<M1321>>>" ++ check (runes_of_ascii "// top
-packet // c0
-P1
-    // c1
-{ // c2
-u8
+packet rootA {
+    calculatedFrom @calculatedFrom(""x y""),
+    char Pad @calculatedFrom(""a\""b"") `" ++ [233]%N ++ runes_of_ascii "`,
+    @leftPad('\x00')
+    repeat float64 tag,
+    // " ++ [27880; 37322]%N ++ runes_of_ascii "
+    @calculatedFrom(""1"")
+    repeat Foo,
+}// " ++ [27880; 37322]%N)).
+Eval vm_compute in ("<<<M1347>>>" ++ check (runes_of_ascii "// top
+options // c0a
+  // c0b
+{ // c1
+ArrayPrefixLenType
+    // c2
+=
     // c3
-a // c4a
+u64 // c4a
   // c4b
-,
-    // c5
-} // c6
-packet
-    // c7
-P2 // c8
-{ // c9a
+; // c5
+FixedStringPadFromLeft
+    // c6
+= true
+    // c8
+; // c9a
   // c9b
-P1 // c10
-, } // c12a
-  // c12b
-packet // c13a
-  // c13b
-P3
+FixedStringPadChar // c10
+=
+    // c11
+'0'
+    // c12
+; }
     // c14
-{
+packet
     // c15
-P2
-    // c16
-, // c17
-P1 , // c19
-} // c20a
+Quote // c16
+{ // c17a
+  // c17b
+} // c18a
+  // c18b
+packet // c19
+Ack // c20a
   // c20b
-packet // c21
-P4 // c22
-{ // c23
-repeat // c24a
+{ repeat // c22
+InNote66 { // c24a
   // c24b
-P3
-    // c25
-, P2 , } root // c30a
-  // c30b
-packet // c31
-P5 { // c33
-P4
-    // c34
+u8 // c25a
+  // c25b
+pad0 // c26
 ,
-    // c35
-P3 // c36a
+    // c27
+} // c28
+, // c29
+} // c30
+packet
+    // c31
+Reject // c32a
+  // c32b
+{
+    // c33
+} // c34a
+  // c34b
+root // c35
+packet // c36a
   // c36b
-, P1
-    // c38
-,
-    // c39
-u8 K // c41
-, // c42
-match // c43
-K // c44a
-  // c44b
-as
+Order
+    // c37
+{ // c38
+Quote // c39
+, repeat // c41
+Reject , // c43a
+  // c43b
+string
+    // c44
+venue
     // c45
-Body // c46a
-  // c46b
-{ // c47a
-  // c47b
-4 : // c49a
-  // c49b
-P4 // c50
-, // c51
-3 :
-    // c53
-P3 // c54a
-  // c54b
-, // c55a
-  // c55b
-2 // c56a
+, string
+    // c47
+seqNo // c48a
+  // c48b
+, // c49
+uint32
+    // c50
+Ref // c51a
+  // c51b
+, // c52a
+  // c52b
+u16 // c53a
+  // c53b
+lastPx
+    // c54
+,
+    // c55
+u32 // c56a
   // c56b
-:
-    // c57
-P2 ,
-    // c59
-1 : // c61a
+clOrdID // c57
+@lengthOf(
+    // c58
+Body ) // c60
+, // c61a
   // c61b
-P1 // c62
-, // c63a
-  // c63b
-}
-    // c64
-, }
-    // c66
+match
+    // c62
+lastPx // c63
+as // c64a
+  // c64b
+Body // c65a
+  // c65b
+{ 190 // c67
+: // c68a
+  // c68b
+Reject // c69
+,
+    // c70
+186 : // c72a
+  // c72b
+Quote ,
+    // c74
+22 :
+    // c76
+Ack
+    // c77
+, // c78
+} // c79
+,
+    // c80
+u16 // c81a
+  // c81b
+Flags // c82
+@calculatedFrom( // c83a
+  // c83b
+""CRC32"" ) , // c86
+} // c87a
+  // c87b
 ")).
-Eval vm_compute in ("<<<M312>>>" ++ check (runes_of_ascii "packet // packet A { u8 x, }
-tag
-    { @calculatedFrom(""x y"" ) lengthOf{ options1
-    `
-`,} , @tag( 7 )
-int {
-//x
-// " ++ [27880; 37322]%N ++ runes_of_ascii "
-char[ 007  ] // `tick` ""quote"" 'q'
-calculatedFrom @lengthOf(
-metadata
-)  , tag @lengthOf( falsey
-) ,	f32
-    // " ++ [128512]%N ++ runes_of_ascii " emoji
-    calculatedFrom
-// `tick` ""quote"" 'q'
-//
-`{ , }` , i8i8
-    {string
-    i64_ @lengthOf( asx )	`it's` , u @calculatedFrom(  ""\n"" ) ,
-    } ,	}
+Eval vm_compute in ("<<<M96>>>" ++ check (runes_of_ascii "packet  int//x
+{
+// " ++ [128512]%N ++ runes_of_ascii " emoji
+//	t
+} packet Z9_ {
+    @tag(  1
+) @tag(00 ) zchar[ 0 ] trueish `// not a comment`
+, Header @lengthOf(
+repeatCount ) // `tick` ""quote"" 'q'
+,charz float`crlf
+line` , match
+lengthOf as	u
+    // c
+    { // `tick` ""quote"" 'q'
+65535  :
+    msg_type
+,""1""
+:
+    // " ++ [27880; 37322]%N ++ runes_of_ascii "
+    x
     ,
-    @calculatedFrom(""abc"" //
-)  @leftPad ( ' '
-    )  uint64 calculatedFrom
-,// " ++ [27880; 37322]%N ++ runes_of_ascii "
-} packet o { Header ,
-    @lengthOf(	i8i8
-) float32
-    Pad // c
-,char[ 42 ]
-leftPad
-    @calculatedFrom(	"""" // " ++ [128512]%N ++ runes_of_ascii " emoji
-)
-    , @tag( 255 )
-body
-    u , } packet lengthOf{
+""a\""b"" : packetx , 10:
+msg_type """ ++ [128512]%N ++ runes_of_ascii """ :
+calculatedFrom [
+7 ,0	]
+    // c
+    : // " ++ [128512]%N ++ runes_of_ascii " emoji
+u128 , }, string i8i8`{ , }` , } packet// @lengthOf(
+a1{ } root packet roots {
+    @lengthOf(
+    // " ++ [128512]%N ++ runes_of_ascii " emoji
+    u )
+f64 Logon,@lengthOf(
+_x	) As
+    @calculatedFrom(""\n"" ) , @leftPad
 // packet A { u8 x, }
-// c
-@tag(
-    255 //x
-) char[ 0123456789 ] o
+// " ++ [27880; 37322]%N ++ runes_of_ascii "
+(  )repeatCount
+@calculatedFrom( ""{,}""
+)
+`tab	here`
+    // trailing space 
+    , @tag(
+    //x
+    42)char[
+1
+    ]T
+    `a\`
+,int64
+_x// packet A { u8 x, }
+, zchar[	4294967296
+    ]
+i64_ @lengthOf(  tag
+    //	t
+    )
+    `
 `
-` , }
-
+    , @calculatedFrom(""a\""b""
+    //x
+    ) u8 len`it's` , @leftPad
+(
+) metadata@lengthOf(tag
+    ) `{ , }` ,@leftPad// packet A { u8 x, }
+( ' '
+) MetaDataX  {
+    repeat char[]	rootA
+    ,
+    // c
+    } ,i8 body ,}
 ")).
-Eval vm_compute in ("<<<M1776>>>" ++ check (runes_of_ascii "options {
+Eval vm_compute in ("<<<M1878>>>" ++ check (runes_of_ascii "packet i8i8 {
+    @tag(0)
+    int32 leftPad `it's`,
+    repeat char[] Header `crlf
+    line`,
+    @calculatedFrom(""\" ++ [233]%N ++ runes_of_ascii """)
+    /// triple
+    repeat uint8 float,
+    @rightPad('\x00')
+    char[] zchar @lengthOf(leftPad) `
+    `,
+    Z9_,
+    @lengthOf(x)
+    match As as tag {
+        ""a	b"" : string_,
+        [
+            10, 7, ""1"", 255, 3,
+            42, 0123456789, """ ++ [128512]%N ++ runes_of_ascii """
+        ] : x_y_z,
+        ""CRC32"" : Z9_,
+        00 : Logon,
+    },
+    @tag(007)
+    o {
+        char Packet @lengthOf(repeatCount),
+    },
+    @lengthOf(pack)
+    float64 rootA `two words`,
+    repeat char[] BodyLength,
+}
+
+packet Z9_ {
+    match As as a1 {
+        //
+        0 : trueish,
+    },
+    /// triple
+    // " ++ [27880; 37322]%N ++ runes_of_ascii "
+}
+
+root packet u8x {
+    /// triple
+    // " ++ [128512]%N ++ runes_of_ascii " emoji
+    repeat string Logon `tab	here`,// " ++ [128512]%N ++ runes_of_ascii " emoji
+}
+
+options {
+    _x = ""packet"";
+    f32a = 007
 }
 
 packet i8i8 {
-    @tag(3)
-    x @calculatedFrom(""it's""),
-    @lengthOf(f32a)
-    match rootA as uint8x {
-        0 : string_,
-        42 : Packet,
-    },
-    @leftPad('\x00')
-    i64_ packetx `u8 x,`,
-    @calculatedFrom(""x y"")
-    matchKey {
-        len,
-    },
-    @lengthOf(matchKey)
-    @calculatedFrom(""abc"")
-    @lengthOf(x_y_z)
-    /// triple
-    repeat metadata `line1
-    line2`,
-    lengthOf repeatCount,/// triple
-    int32 roots @calculatedFrom(""`tick`"") `" ++ [233]%N ++ runes_of_ascii "`,
-    zchar[1] Packet @calculatedFrom(""// no comment""),
-}
-
-packet options1 {
-    @lengthOf(uint8x)
-    A @calculatedFrom(""it's"") `doc`,
-}
-
-root packet crc {
-    char[65535] chars,
+    @calculatedFrom(""CRC32"")
+    A @lengthOf(a1),
 }")).
-Eval vm_compute in ("<<<M1720>>>" ++ check (runes_of_ascii "root packet u8x {
-    char i64_,
-    repeat char[1] Z9_,
-    @tag(42)
-    repeat Logon MetaDataX,
-    @leftPad()
-    Foo @lengthOf(As),
-    match u128 as calculatedFrom {
-        // " ++ [128512]%N ++ runes_of_ascii " emoji
-        4294967296 : BodyLength,
-        3 : A,
-        //
-        [4294967296, ""packet""] : o,
-        65535 : roots,
-    },
-    repeat Pad {
-        uint64 x @calculatedFrom(""" ++ [128512]%N ++ runes_of_ascii """),
-        a1 @lengthOf(As) `line1
-        line2`,
-        repeat string_ {
-            repeat uint32 _x,
-            f32 MetaDataX `it's`,
-            u64 As @lengthOf(crc),
-        },
-        roots,
-    },
-    zchar[00] u128,
-}")).
-Eval vm_compute in ("<<<M1635>>>" ++ check (runes_of_ascii "packet u8x {
-}
-
-root packet matchKey {
-    repeat zchar[0123456789] int,
-    char[4294967296] asx `{ , }`,
-    repeat i8i8,
-    repeat Packet {
-        repeat leftPad {
-            f32 u128 @lengthOf(As),
-            body `two words`,// packet A { u8 x, }
-            rootA Pad,
-        },
-        char[00] msg_type `tab	here`,
-        repeat i64_ `doc`,
-        zchar x_y_z,
-    },
-}
-
-root packet int {
-    repeat f32a {
-        repeat f32a asx `u8 x,`,
-    },
-    @lengthOf(msg_type)
-    body,
-    // c
-    //
-    Z9_ zchar `a\`,
-}//x")).
-Eval vm_compute in ("<<<M334>>>" ++ check (runes_of_ascii "MetaData pack {
-int16 rootA `{ , }` ,
-    //	t
-    int16 // c
-x,// " ++ [27880; 37322]%N ++ runes_of_ascii "
-u32 msg_type,
-    }
-packet i64_
-    {// trailing space 
-@leftPad
-    ( '0') @rightPad ( '\x00' // packet A { u8 x, }
-)
-@lengthOf(options1	)
-    string body @lengthOf( asx) `" ++ [233]%N ++ runes_of_ascii "` ,
-    }
-options { msg_type
-    //	t
-    = 00//
-;} MetaData
-    stringy// c
-{
-    zchar MetaDataX `line1
-line2` , char[255] len `it's` , f32 pack ,
-    uint16 Foo
-`it's` , int16 i64_`two words` ,
-    // `tick` ""quote"" 'q'
-    }")).
-Eval vm_compute in ("<<<M1192>>>" ++ check (runes_of_ascii "// top
-MetaData
-    // c0
-uint8x
-    // c1
-{
-    // c2
-char[]
-    // c3
-f32a
-    // c4
-`// not a comment`
-    // c5
+Eval vm_compute in ("<<<M135>>>" ++ check (runes_of_ascii "
+packet crc
+    {@tag(	0)  @calculatedFrom(
+    ""{,}""	) @rightPad ( ' ')	repeat uint8 lengthOf // a // b
 ,
-    // c6
-float32
-    // c7
-roots
-    // c8
-,
-    // c9
-char[
-    // c10
-7
-    // c11
-]
-    // c12
-u8x
-    // c13
-,
-    // c14
-zchar[
-    // c15
-10
-    // c16
-]
-    // c17
-f32a
-    // c18
-,
-    // c19
-u64
-    // c20
-pack
-    // c21
-,
-    // c22
-u16
-    // c23
-pack
-    // c24
-,
-    // c25
-}
-    // c26
-")).
-Eval vm_compute in ("<<<M1139>>>" ++ check (runes_of_ascii "// top
-MetaData
-    // c0
-leftPad
-    // c1
-{
-    // c2
-chars
-    // c3
-MetaDataX
-    // c4
-,
-    // c5
-}
-    // c6
-packet
-    // c7
-repeatCount
-    // c8
-{
-    // c9
-char[
-    // c10
-255
-    // c11
-]
-    // c12
-uint8x
-    // c13
-`" ++ [233]%N ++ runes_of_ascii "`
-    // c14
-,
-    // c15
-}
-    // c16
-MetaData
-    // c17
-pack
-    // c18
-{
-    // c19
-As
-    // c20
-Foo
-    // c21
-,
-    // c22
-}
-    // c23
-")).
-Eval vm_compute in ("<<<M77>>>" ++ check (runes_of_ascii "
-packet	float { char[ 42] int`say ""hi""` , @tag( 255// packet A { u8 x, }
-) match// a // b
-stringy  as
-    x { [ 00 ,42
-]: i64_ 42 : matchKey , [ ""1"" , 1
-, 42
-    ,
-""" ++ [28040; 24687]%N ++ runes_of_ascii """ , ""abc"" ,
-// a // b
+    char[	42 ] float ,
+    repeat a1 // packet A { u8 x, }
+{ match
+x_y_z as charz
+    { [
+00
+, 4294967296,
 //x
-1 // trailing space 
-]
-: //
-roots
-,
-    65535
-: trueish ,	} ,@calculatedFrom( ""{,}"" )body @calculatedFrom(""" ++ [28040; 24687]%N ++ runes_of_ascii """ ) , zchar[
-    007 ] lengthOf, }
-")).
-Eval vm_compute in ("<<<M1454>>>" ++ check (runes_of_ascii "options {
-    LittleEndian = true;
+// a // b
+""it's"",""" ++ [28040; 24687]%N ++ runes_of_ascii """ ] ://x
+zchar,	[
+    ""packet"" ,// c
+""x y"",
+""it's"" ,""abc"" ,
+""it's""
+    ] :string_ , 0 : Z9_
 }
-
-packet Logon {
-    u8 x,
-}
-
-packet Logout {
-    u16 reason,
-}
-
-root packet Frame {
-    i8 Kind,
-    i8 Kind2,
-    match Kind as Body {
-        1 : Logon,
-        [2, 3, 4] : Logout,
-        100 : Logon,
-    },
-    match Kind2 as Trailer {
-        0 : Logout,
-    },
-}")).
-Eval vm_compute in ("<<<M1495>>>" ++ check (runes_of_ascii "options
-
-    {pack  // `tick` ""quote"" 'q'
-=
-    0123456789
-
-} 
-packet 
-metadata 
-{ @leftPad
-    (	' ' ) stringy 
-@lengthOf( _x
-
+    // `tick` ""quote"" 'q'
+    , // `tick` ""quote"" 'q'
+} ,match u8x
+as//x
+pack {[ 0123456789
+, ""x y""
+] : // c
+trueish /// triple
+, }	,
+    @calculatedFrom( ""a\""b""
+    // c
+    ) repeat string_ `a\`,
+packetx@calculatedFrom(
+""`tick`"" ) , int64 chars `say ""hi""` , @calculatedFrom(
+""a	b"" )@leftPad (  '\x00'
+) @lengthOf(
+    repeatCount)u64
+    falsey@calculatedFrom( ""\" ++ [233]%N ++ runes_of_ascii """
     )
-, 
-repeat
-u8 int
-	`{ , }` ,@leftPad  //	t
-  ( '0'
-
-    )repeat 
-char  msg_type `it's` 
-,  }
-MetaData x_y_z
-{  // trailing space 
-
-	}
+,
+repeat Header { repeat
+    metadata , char[] chars`" ++ [28040; 24687; 31867; 22411]%N ++ runes_of_ascii "` , zchar[ 10] x_y_z `a\` ,	},
+// trailing space 
+// c
+}
 ")).
-Eval vm_compute in ("<<<M1594>>>" ++ check (runes_of_ascii "root packet i8i8 {
-    @tag(4294967296)
-    // packet A { u8 x, }
-    Header calculatedFrom `
-    `,
-    @tag(4294967296)
-    @rightPad(' ')
-    @lengthOf(float)
-    options1 zchar `" ++ [233]%N ++ runes_of_ascii "`,
+Eval vm_compute in ("<<<M1944>>>" ++ check (runes_of_ascii "packet float {
+    char[] u8x @lengthOf(roots),
 }
 
-root packet x {
-    repeat zchar[10] x `u8 x,`,
+MetaData leftPad {
+    string a1,
+}
+
+root packet pack {
+    falsey,
+    /// triple
+    match Logon as trueish {
+        ""packet"" : Foo,
+        """" : len,
+        0123456789 : i64_,
+        ""it's"" : packetx,
+        255 : len,
+    },
+    repeat As As `" ++ [233]%N ++ runes_of_ascii "`,
+    @tag(3)
+    uint32 a1,
+    repeat zchar[4294967296] pack,
+    @leftPad(' ')
+    zchar @lengthOf(string_) `// not a comment`,
+    repeat int,
+    repeat i8i8 {
+        u64 tag `say ""hi""`,
+        u8x,
+        char trueish,
+        repeat float32 stringy `line1
+                line2`,
+    },
+    match o as o {
+        007 : float,
+    },
+    // packet A { u8 x, }
+    // c
+    repeat Pad,
+    // " ++ [27880; 37322]%N ++ runes_of_ascii "
+    // trailing space 
 }")).
-Eval vm_compute in ("<<<M1303>>>" ++ check (runes_of_ascii "// top
-packet
-    // c0
-order_item // c1
-{ u8 // c3
-a // c4a
-  // c4b
-, // c5
-} root // c7
-packet
-    // c8
-new_order
-    // c9
-{ // c10
-order_item
-    // c11
+Eval vm_compute in ("<<<M216>>>" ++ check (runes_of_ascii "// " ++ [27880; 37322]%N ++ runes_of_ascii "
+packet chars {match
+charz
+as
+    // trailing space 
+    A // trailing space 
+{0123456789: rootA ,
+    42
+:
+    x , ""1"" :Logon , 7 :u , ""\n"" : packetx , }, char[]MetaDataX
+@calculatedFrom(""""
+) `" ++ [233]%N ++ runes_of_ascii "`
+    // trailing space 
+    ,	@leftPad( ' ' )  char[] Foo,
+    crc , f64 string_ , // " ++ [128512]%N ++ runes_of_ascii " emoji
+char[]
+packetx,i64 u8x@lengthOf(  stringy ) `// not a comment`, repeat zchar {
+repeat
+A _x , lengthOf	@lengthOf( u8x
+) ,	match A as matchKey { 3 :Z9_ , ""// no comment"": As 00 //x
+:
+i64_ ,
+// a // b
+// " ++ [128512]%N ++ runes_of_ascii " emoji
+""a\\""  :i64_ , [ ""`tick`""/// triple
+] : T ,
+    }
 ,
+// a // b
+// packet A { u8 x, }
+uint32 T
+`" ++ [28040; 24687; 31867; 22411]%N ++ runes_of_ascii "`
+    , }
+    , uint64
+    /// triple
+    charz
+, }")).
+Eval vm_compute in ("<<<M1466>>>" ++ check (runes_of_ascii "packet BodyLength {
+    @rightPad('\x00')
+    u8x,
+    @tag(007)
+    @calculatedFrom(""packet"")
+    repeat uint8x x_y_z,
+}
+
+MetaData A {
+    // packet A { u8 x, }
+    Z9_ f32a,
+    zchar[255] msg_type `say ""hi""`,
+    char[1] Logon `tab	here`,//
+}
+
+packet uint8x {
+    @calculatedFrom(""" ++ [28040; 24687]%N ++ runes_of_ascii """)
+    @tag(65535)
+    u32 int @lengthOf(u8x) `say ""hi""`,
+    @leftPad(' ')
+    stringy {
+        string_ A,
+        char[4294967296] i8i8 `" ++ [233]%N ++ runes_of_ascii "`,
+        char[] Logon,
+        string x_y_z @lengthOf(Packet),
+    },
+    zchar[4294967296] int `{ , }`,
+}
+
+// trailing space 
+// " ++ [27880; 37322]%N ++ runes_of_ascii "
+packet u8x {
+}
+// a // b")).
+Eval vm_compute in ("<<<M296>>>" ++ check (runes_of_ascii "MetaData u128
+{  zchar[ 3 ] matchKey	`crlf
+line` //
+, } // packet A { u8 x, }
+options
+{ //x
+} root	packet rootA
+    { @calculatedFrom(
+    ""{,}"" ) repeat u16 len ,repeat body,i8i8 @lengthOf( packetx),metadata int `line1
+line2` ,  uint8x `two words` // c
+, int16 //
+x_y_z
+, repeatCount , Logon {  repeat// trailing space 
+i8 Packet `line1
+line2`
+, } ,}
+options
+{// " ++ [128512]%N ++ runes_of_ascii " emoji
+lengthOf
+//
+// trailing space 
+= ' ' ;
+i64_ = ""{,}"" ; msg_type
+= '0'
+; u=
+// packet A { u8 x, }
+// " ++ [27880; 37322]%N ++ runes_of_ascii "
+i32;_x = ""abc""
+    // packet A { u8 x, }
+    ; }
+")).
+Eval vm_compute in ("<<<M1472>>>" ++ check (runes_of_ascii "// top
+packet MDSnapshotZZ {
+    // c2
+    u8 a,// c5a
+    // c5b
+}// c6
+
+packet OrderACK {
+    // c9a
+    // c9b
+    u16 b,
     // c12
-u8 // c13a
-  // c13b
-x ,
-    // c15
-} ")).
-Eval vm_compute in ("<<<M1295>>>" ++ check (runes_of_ascii "packet
-    A{ 
-u8 a,
-}packet
-B
+}// c13a
 
-{u16
-	b
+// c13b
+packet HTTPServerInfo {
+    // c16
+    string s,
+    // c19
+}
 
-    , } root
-packet 
-P
-
-    {  u8
-    K1
-, u8
-
-K2 
-,match K1
-	as	M1
+// c20
+root packet FIXMsg {
+    u8 KType,// c27a
+    // c27b
+    MDSnapshotZZ,// c29a
+    // c29b
+    repeat OrderACK,// c32a
+    // c32b
+    match KType as Body {
+        // c37
+        1 : HTTPServerInfo,
+        2 : OrderACK,
+    },
+    // c47
+}// c48a
+// c48b")).
+Eval vm_compute in ("<<<M1372>>>" ++ check (runes_of_ascii "options {
+    LittleEndian = true;
+    StringPrefixLenType = u64;
+    ArrayPrefixLenType = u16;
+    FixedStringPadFromLeft = false;
+    FixedStringPadChar = ' ';
+}
+packet Logon {
+    zchar[5] Side2,
+}
+root packet Logout {
+    repeat i64 Tail,
+    Logon,
+    repeat i16 OrderId,
+    char[] venue,
+    uint64 x,
+    repeat i16 count,
+    u8 Flags,
+    match Flags as Body {
+        25 : Logon,
+    },
+    u16 Qty @calculatedFrom(""CRC32""),
+}
+")).
+Eval vm_compute in ("<<<M220>>>" ++ check (runes_of_ascii "root
+    packet string_{
+//	t
+//x
+i16 o /// triple
+,
+    @tag( 4294967296
+)
+repeat char o ,Foo {match MetaDataX // trailing space 
+as leftPad
+    { 0123456789 : calculatedFrom ,
+[ 0 ]
+: u128}
+, repeat
+u
+// `tick` ""quote"" 'q'
+// @lengthOf(
 {
+    zchar[65535]body@lengthOf( float  )
+,o , asx @calculatedFrom( ""{,}"" ) `it's` // `tick` ""quote"" 'q'
+,}// `tick` ""quote"" 'q'
+,
+} ,  }
+")).
+Eval vm_compute in ("<<<M1805>>>" ++ check (runes_of_ascii "
+options
+	{	LittleEndian
+=
+true
+    ;
+
+    } packet
+
+    Logon 
+{  u8
+
+    x
+    ,
+    }
+
+    packet 
+Logout  {	u16	reason
+	, }  root
+packet
+
+Frame{
+u64	Kind
+    ,
+    u64
+Kind2 ,
+
+match Kind
+as
+Body {
 1
     :
+	Logon 
+,
 
-A,
+[  2
+,
+3  ,
+    4  ] :
 
-    } ,	match
+Logout
+, 100 :
 
-K2
-as M2  {
-1:B ,
-    }
-    ,}
-")).
-Eval vm_compute in ("<<<M1488>>>" ++ check (runes_of_ascii "//	t
-options {
-    chars = true
-    As = char[];/// triple
-    x_y_z = 7;// " ++ [27880; 37322]%N ++ runes_of_ascii "
-    i8i8 = true
-    packetx = ' '
+Logon
+    ,
+
+} , match
+
+    Kind2 as Trailer 
+{
+	0 :Logout
+,}
+, } ")).
+Eval vm_compute in ("<<<M1848>>>" ++ check (runes_of_ascii "packet A {
+    u8 a,
 }
 
-root packet x_y_z {
-    repeat char[42] Pad,
+packet B {
+    u16 b,
+}
+
+packet C {
+    u32 c,
+}
+
+root packet M {
+    u16 Kc,
+    u16 Kb,
+    u16 Ka,
+    match Kc as X {
+        9 : A,
+        10 : B,
+    },
+    match Kb as Y {
+        2 : C,
+        1 : A,
+    },
+    match Ka as Z {
+        1 : B,
+    },
+    A,
+    B,
+    C,
 }")).
+Eval vm_compute in ("<<<M94>>>" ++ check (runes_of_ascii "MetaData chars{ uint64	A, msg_type asx
+    // c
+    , Z9_  a1,
+    stringy
+    i64_ //
+`doc` , }packet
+/// triple
+// a // b
+x_y_z {	} options {
+float // c
+=float32 rootA= false ;
+repeatCount// c
+=  char[ 10 ]
+; }	packet Z9_{zchar[007 ]
+    //	t
+    charz // c
+,
+} //x")).
+Eval vm_compute in ("<<<M1306>>>" ++ check (runes_of_ascii "// top
+packet // c0a
+  // c0b
+orderItem // c1a
+  // c1b
+{ u8 // c3
+a // c4
+, // c5a
+  // c5b
+}
+    // c6
+root packet // c8a
+  // c8b
+newOrder // c9a
+  // c9b
+{ orderItem // c11
+, u8
+    // c13
+x // c14a
+  // c14b
+,
+    // c15
+} // c16
+")).
+Eval vm_compute in ("<<<M1434>>>" ++ check (runes_of_ascii "packet A {
+    match k as n {
+        ""x\
+                y"" : B,
+        [""x\
+                y"", 1] : C,
+        [
+            1, 2, 3, 4, 5,
+            ""x\
+                        y""
+        ] : D,
+    },
+}")).
+Eval vm_compute in ("<<<M357>>>" ++ check (runes_of_ascii "MetaData x_y_z
+{
+lengthOf // packet A { u8 x, }
+rootA , MetaDataX// " ++ [128512]%N ++ runes_of_ascii " emoji
+_x , char[ 4294967296 ] stringy , char[
+//
+// c
+007
+] u128
+, tag u8x `line1
+line2` ,  uint8 u128 , }
+")).
+Eval vm_compute in ("<<<M60>>>" ++ check (runes_of_ascii "root packet _x
+{ uint32 trueish @calculatedFrom( ""1"" ) `crlf
+line`
+,  }
+    //
+    packet	Header { repeat u64
+stringy `// not a comment` , float32  msg_type ,}
+")).
 Eval vm_compute in ("<<<M438>>>" ++ check (runes_of_ascii "packet uint8x
 { match pack
     as msg_type	{
@@ -959,14 +799,7 @@ a1
     { } options {packetx
     = '\x00'	; u128= ""a	b""  ; }
 ")).
-Eval vm_compute in ("<<<M275>>>" ++ check (runes_of_ascii "MetaData
-stringy { zchar[10 ] crc,  }
-    packet u128
-{ repeat uint16  BodyLength `// not a comment`, @lengthOf( falsey ) _x ,
-char[ 42 ]  i8i8	, }
-
-")).
-Eval vm_compute in ("<<<M532>>>" ++ check (runes_of_ascii "packet uint8x
+Eval vm_compute in ("<<<M393>>>" ++ check (runes_of_ascii "uint8x packet
 { match pack
     as msg_type	{
     0123456789 :	float
@@ -975,312 +808,311 @@ Eval vm_compute in ("<<<M532>>>" ++ check (runes_of_ascii "packet uint8x
 } packet //	t
 a1
     { } options {packetx
-    = '\x00'	; u128= ""a	b""  ; )
+    = '\x00'	; u128= ""a	b""  ; }
 ")).
-Eval vm_compute in ("<<<M1464>>>" ++ check (runes_of_ascii "
-options {  }MetaData
-
-    u8x
-
-    {
-uint8x
-body `crlf
-line`
-	//	t
-    , calculatedFrom body ,  }	options
-	{  }root
-	packet
-options1
-{ }
-")).
-Eval vm_compute in ("<<<M705>>>" ++ check (runes_of_ascii "// @lengthOf(
+Eval vm_compute in ("<<<M673>>>" ++ check (runes_of_ascii "// @lengthOf(
 packet i8i8 { u128 o , }
 options { MetaDataX = true;
-    BodyLength =""packet"" x_y_z= 007
-crc //x
-= = ""abc"" ;
-    msg_type =
-i16 }")).
-Eval vm_compute in ("<<<M720>>>" ++ check (runes_of_ascii "// @lengthOf(
-packet i8i8 { u128 o , }
-options { MetaDataX = true;
-    BodyLength =""packet"" =x_y_z 007
+    BodyLength =""packet"" x_y_z float64 007
 crc //x
 = ""abc"" ;
     msg_type =
 i16 }")).
-Eval vm_compute in ("<<<M1865>>>" ++ check (runes_of_ascii "
-packet
-	A
+Eval vm_compute in ("<<<M394>>>" ++ check (runes_of_ascii "u32 uint8x
+{ match pack
+    as msg_type	{
+    0123456789 :	float
+}
+,
+} packet //	t
+a1
+    { } options {packetx
+    = '\x00'	; u128= ""a	b""  ; }
+")).
+Eval vm_compute in ("<<<M1720>>>" ++ check (runes_of_ascii "
+MetaData leftPad{ 
+chars
+	MetaDataX
+	,
+	}packet
+repeatCount
 
 {
-match k
-	as	n  {
-    [
-""a""  ,
 
-""bb""
-
-    ,
-    007	,""d""	,
-
-    ""e"", 66
-
-]
-	:
-
-    B
-
-,
-
-    2
-:
-	C
-
-    }
-,
-}
-
-")).
-Eval vm_compute in ("<<<M1803>>>" ++ check (runes_of_ascii "packet A {
-    match k as n {
-        [
-            1, 22, 4, 5, 7,
-            8, ""c c"", ""f""
-        ] : B,
-        2 : C,
-    },
-}")).
-Eval vm_compute in ("<<<M1466>>>" ++ check (runes_of_ascii "MetaData leftPad {
-    chars MetaDataX,
-}
-
-packet repeatCount {
-    char[255] uint8x `" ++ [233]%N ++ runes_of_ascii "`,
-}
-
-MetaData pack {
-    As Foo,
-}")).
-Eval vm_compute in ("<<<M1157>>>" ++ check (runes_of_ascii "MetaData leftPad { chars MetaDataX , } packet // c
-repeatCount { char[ 255 ] uint8x `" ++ [233]%N ++ runes_of_ascii "` , } MetaData pack { As Foo , }")).
-Eval vm_compute in ("<<<M1379>>>" ++ check (runes_of_ascii "  packet
-	A	{
-match k
-    as  n	{[ 1
-,
-    22 
-,
-
-""c c"" ,
-4,  5
-,
-
-""f"" ,
-    7 
-,
-
-8 ,""i""]:
-B  2
-
-    : C
-}
-
-,
-
+    char[
+    255 ] 
+uint8x
+`" ++ [233]%N ++ runes_of_ascii "` ,} 
+MetaData 
+    // c
+    pack{ As
+Foo,
 }
 ")).
-Eval vm_compute in ("<<<M1567>>>" ++ check (runes_of_ascii "packet Header {
-    repeat char[0123456789] BodyLength `" ++ [28040; 24687; 31867; 22411]%N ++ runes_of_ascii "`,
-    zchar[3] chars,// trailing space 
-    A,
-}//")).
-Eval vm_compute in ("<<<M49>>>" ++ check (runes_of_ascii "options  { f32a = true;  metadata =""CRC32"" ;
-body // " ++ [27880; 37322]%N ++ runes_of_ascii "
-=
-char ; A =
-float64	;
-} MetaData
-    rootA { }")).
-Eval vm_compute in ("<<<M1573>>>" ++ check (runes_of_ascii "
-packet
-A {
+Eval vm_compute in ("<<<M722>>>" ++ check (runes_of_ascii "// @lengthOf(
+packet i8i8 { u128 o , }
+options { MetaDataX = true;
+    BodyLength =x_y_z ""packet""= 007
+crc //x
+= ""abc"" ;
+    msg_type =
+i16 }")).
+Eval vm_compute in ("<<<M1611>>>" ++ check (runes_of_ascii "
+packet	A	{
 
-    Inner  {
+    match
+k	as
+    n  {[	""a"" ,  22
+	,
+    ""c c""  ,
+	4
 
-match  k
+    ,  ""e""
+,  66  ,""g"" ,
+8 
+,	""i""
+,	10 ]	:
+B
+,  2 :
+C
+
+} ,  } ")).
+Eval vm_compute in ("<<<M1266>>>" ++ check (runes_of_ascii "  packet B
+    {
+u8 a
+	,
+    } 
+root  packet
+
+P {
+u8
+    K  ,
+	match
+    K as Body
+
+{
+1
+
+:  B,
+}  ,
+	u16	L@lengthOf(	Body
+
+) ,
+	}
+")).
+Eval vm_compute in ("<<<M1694>>>" ++ check (runes_of_ascii "packet A 
+{
+match k
 as
 
 n
-{
-[ 1
-
-    ,  22
+    {
+	[  ""a"",
+    ""bb""
 	, 
-007 , 4
-    ]
-: B,
-}
-	,
-}
-,}
+007	, ""d""
+
+, 
+""e"",66
+
+,""g""	,  ""h""
+
+,
+	9 ,	""j""
+	]	:B	2
+
+: 
+C }
+
+,
+}")).
+Eval vm_compute in ("<<<M1145>>>" ++ check (runes_of_ascii "MetaData leftPad // c
+{ chars MetaDataX , } packet repeatCount { char[ 255 ] uint8x `" ++ [233]%N ++ runes_of_ascii "` , } MetaData pack { As Foo , }")).
+Eval vm_compute in ("<<<M1177>>>" ++ check (runes_of_ascii "MetaData leftPad { chars MetaDataX , } packet repeatCount { char[ 255 ] uint8x `" ++ [233]%N ++ runes_of_ascii "` , } MetaData // c
+pack { As Foo , }")).
+Eval vm_compute in ("<<<M346>>>" ++ check (runes_of_ascii "MetaData chars {
+x_y_z
+/// triple
+/// triple
+x
+    `line1
+line2` ,_x A`// not a comment`,	} // `tick` ""quote"" 'q'")).
+Eval vm_compute in ("<<<M962>>>" ++ check (runes_of_ascii "packet A {
+    Inner {
+        u8 x `tab
+	x`,
+        Deep {
+            u8 y `tab
+	x`,
+        },
+    },
+}")).
+Eval vm_compute in ("<<<M1732>>>" ++ check (runes_of_ascii "packet
+
+    A
+	{ match k
+as n
+
+{
+[
+""a"" 
+,22 ,
+
+""c c""
+,
+4  , ""e"" 
+,
+    66]:	B 2 
+:C
+    }
+    ,}
 ")).
-Eval vm_compute in ("<<<M554>>>" ++ check (runes_of_ascii "
-packet packet
+Eval vm_compute in ("<<<M882>>>" ++ check (runes_of_ascii "packet A {
+  match k as n {
+    [1, ""bb"", 007, ""d"", 5, ""f"", 7, ""h"", 9, ""j""] : B,
+    2 : C
+  },
+}")).
+Eval vm_compute in ("<<<M558>>>" ++ check (runes_of_ascii "
+packet
+    asx asx {match u128 as lengthOf
+{
+//	t
+// `tick` ""quote"" 'q'
+255 : x ,
+    } ,	}")).
+Eval vm_compute in ("<<<M639>>>" ++ check (runes_of_ascii "
+packet
     asx {match u128 as lengthOf
 {
 //	t
 // `tick` ""quote"" 'q'
 255 : x ,
-    } ,	}")).
-Eval vm_compute in ("<<<M1727>>>" ++ check (runes_of_ascii "
-
-  packet
-A
-    {
-	match
-
-k as 
-n
-	{
-[
-    ""a"" , 22,  ""c c"" 
-]
-
-:
-B
-
-    2 :	C
-	}
-,
-	}
-
-")).
-Eval vm_compute in ("<<<M559>>>" ++ check (runes_of_ascii "
+    } ,	"" }")).
+Eval vm_compute in ("<<<M604>>>" ++ check (runes_of_ascii "
 packet
-    { asx match u128 as lengthOf
+    asx {match u128 as lengthOf
 {
 //	t
 // `tick` ""quote"" 'q'
-255 : x ,
+255 : , x
     } ,	}")).
-Eval vm_compute in ("<<<M1533>>>" ++ check (runes_of_ascii "packet A
+Eval vm_compute in ("<<<M1507>>>" ++ check (runes_of_ascii "
+root	packet
+    P { u16	a
 
-    {
-match  k
-as n	{[ 1
-    ,  ""bb""
-    , 007]
-    :
-
-B,
-2
-: C
-	}
-    ,	} ")).
-Eval vm_compute in ("<<<M846>>>" ++ check (runes_of_ascii "packet A {
-  match k as n {
-    [""a"", 22, ""c c"", 4, ""e"", 66, ""g""] : B
-    2 : C
-  },
-}")).
-Eval vm_compute in ("<<<M966>>>" ++ check (runes_of_ascii "packet A {
-    u32 crc @calculatedFrom(""x\
-y""),
-    @calculatedFrom(""x\
-y"") u8 y,
-}")).
-Eval vm_compute in ("<<<M972>>>" ++ check (runes_of_ascii "packet A {
-    u32 crc @calculatedFrom(""\
-""),
-    @calculatedFrom(""\
-"") u8 y,
-}")).
-Eval vm_compute in ("<<<M827>>>" ++ check (runes_of_ascii "packet A {
-  match k as n {
-    [1, 22, 007, 4, 5, 66] : B
-    2 : C
-  },
-}")).
-Eval vm_compute in ("<<<M1740>>>" ++ check (runes_of_ascii "packet A {
-    B b `x
-    `,
-    B `x
-    `,
-    repeat B bs `x
-    `,
-}")).
-Eval vm_compute in ("<<<M796>>>" ++ check (runes_of_ascii "packet A {
-  match k as n {
-    [1, 22, ""c c""] : B
-    2 : C
-  },
-}")).
-Eval vm_compute in ("<<<M1890>>>" ++ check (runes_of_ascii "
-packet
-body {i32 f32a
-	`{ , }`
 ,
-    }options
-// c
-  { 
-}
-")).
-Eval vm_compute in ("<<<M1287>>>" ++ check (runes_of_ascii "root packet P {
-    repeat string ss,
-    repeat u16 ns,
-}
-")).
-Eval vm_compute in ("<<<M1078>>>" ++ check (runes_of_ascii "// a
-MetaData M {} // b
-// c
-MetaData N {} // d
-// e")).
-Eval vm_compute in ("<<<M1079>>>" ++ check (runes_of_ascii "packet A { u8 x, } // a
-// b
-packet B {} // c
-// d")).
-Eval vm_compute in ("<<<M1580>>>" ++ check (runes_of_ascii "packet
-	A
-{  @tag(// a
-      1)
-u8 
-x
+
+    u32 Sum @calculatedFrom(
+
+    ""CR\
+C32"" 
+)
 , }
 ")).
-Eval vm_compute in ("<<<M1679>>>" ++ check (runes_of_ascii "root packet A {
-    u8 x `
-        x`,
+Eval vm_compute in ("<<<M116>>>" ++ check (runes_of_ascii "root packet Z9_ { repeat lengthOf
+pack , repeat
+    A {	repeatCount`doc` ,
+    },	}")).
+Eval vm_compute in ("<<<M824>>>" ++ check (runes_of_ascii "packet A {
+  match k as n {
+    [""a"", ""bb"", 007, ""d"", ""e""] : B
+    2 : C
+  },
 }")).
-Eval vm_compute in ("<<<M54>>>" ++ check (runes_of_ascii "options
-{ T= '0' ;A= u8 ;
-    } 	 ")).
-Eval vm_compute in ("<<<M1728>>>" ++ check (runes_of_ascii "  MetaData 
+Eval vm_compute in ("<<<M810>>>" ++ check (runes_of_ascii "packet A {
+  match k as n {
+    [""a"", ""bb"", 007, ""d""] : B,
+    2 : C
+  },
+}")).
+Eval vm_compute in ("<<<M808>>>" ++ check (runes_of_ascii "packet A {
+  match k as n {
+    [1, 22, ""c c"", 4] : B,
+    2 : C
+  },
+}")).
+Eval vm_compute in ("<<<M1463>>>" ++ check (runes_of_ascii "MetaData x {
+    x Packet,
+    i32 lengthOf,// `tick` ""quote"" 'q'
+}")).
+Eval vm_compute in ("<<<M1712>>>" ++ check (runes_of_ascii "packet
+A
+{ match  k
+	as
+n
 
-    // c
-  u
-{	}
-")).
-Eval vm_compute in ("<<<M270>>>" ++ check (runes_of_ascii "  root packet msg_type
 {
+
+    [
+    1
+
+]
+: B 2 :	C
+
+},}
+")).
+Eval vm_compute in ("<<<M1624>>>" ++ check (runes_of_ascii "
+
+  MetaData 
+lengthOf	{Header
+
+    o`doc`  ,
+
+    }
+")).
+Eval vm_compute in ("<<<M1552>>>" ++ check (runes_of_ascii "MetaData M {
+    u8 x `a
+    b`,
+    T t `a
+    b`,
+}")).
+Eval vm_compute in ("<<<M341>>>" ++ check (runes_of_ascii "options  { len = // " ++ [128512]%N ++ runes_of_ascii " emoji
+""packet"" int
+= ""abc""}")).
+Eval vm_compute in ("<<<M1445>>>" ++ check (runes_of_ascii "
+options { 
+x
+= ""{,}""matchKey
+=
+    true;
 }
+
 ")).
-Eval vm_compute in ("<<<M1860>>>" ++ check (runes_of_ascii "packet
-
-f32a
-{
-
-    }")).
-Eval vm_compute in ("<<<M1107>>>" ++ check (runes_of_ascii "MetaData tag // c
-{ }")).
-Eval vm_compute in ("<<<M1869>>>" ++ check (runes_of_ascii "// top
-packet x {
+Eval vm_compute in ("<<<M772>>>" ++ check (runes_of_ascii "false int8 uint64 @lengthOf( , @leftPad :")).
+Eval vm_compute in ("<<<M1081>>>" ++ check (runes_of_ascii "options { a = 1; // a
+ b = 2 // b
+ }")).
+Eval vm_compute in ("<<<M1419>>>" ++ check (runes_of_ascii "options {
+    int = char[];
+}
+//")).
+Eval vm_compute in ("<<<M1038>>>" ++ check (runes_of_ascii "packet A {
+ u8 x `d" ++ [12]%N ++ runes_of_ascii "`, // c" ++ [12]%N ++ runes_of_ascii "
 }")).
-Eval vm_compute in ("<<<M1039>>>" ++ check (runes_of_ascii "packet A {
-}// c 	")).
-Eval vm_compute in ("<<<M1034>>>" ++ check (runes_of_ascii "packet A {
-}// c" ++ [12]%N)).
-Eval vm_compute in ("<<<M1852>>>" ++ check (runes_of_ascii "packet int {
+Eval vm_compute in ("<<<M1910>>>" ++ check (runes_of_ascii "
+
+  packet
+A  {
+
+}
+
+// c" ++ [8232]%N ++ runes_of_ascii "
+")).
+Eval vm_compute in ("<<<M1599>>>" ++ check (runes_of_ascii "// a
+// b
+packet A {
 }")).
-Eval vm_compute in ("<<<M975>>>" ++ check (runes_of_ascii "// c ")).
-Eval vm_compute in ("<<<M730>>>" ++ check (runes_of_ascii "//")).
+Eval vm_compute in ("<<<M22>>>" ++ check (runes_of_ascii "packet leftPad {
+}")).
+Eval vm_compute in ("<<<M997>>>" ++ check (runes_of_ascii "// c" ++ [5760]%N ++ runes_of_ascii "
+packet A {
+}")).
+Eval vm_compute in ("<<<M172>>>" ++ check (runes_of_ascii "packet
+len { }
+
+")).
+Eval vm_compute in ("<<<M11>>>" ++ check (runes_of_ascii "packet zchar { }")).
+Eval vm_compute in ("<<<M1477>>>" ++ check (runes_of_ascii "
+// " ++ [128512]%N ++ runes_of_ascii " emoji")).
+Eval vm_compute in ("<<<M1030>>>" ++ check (runes_of_ascii "// c" ++ [11]%N)).
